@@ -21,10 +21,10 @@ Proof.
   rewrite E. reflexivity.
 Qed.
 
-Lemma expand_row_respects : forall G f t ev d ty T (g : row -> T),
-  respects g -> respects (fun r => map g (expand_row G f t ev d ty r)).
+Lemma expand_row_respects : forall G f t ev d ty h T (g : row -> T),
+  respects g -> respects (fun r => map g (expand_row G f t ev d ty h r)).
 Proof.
-  intros G f t ev d ty T g Rg a b E. unfold expand_row. rewrite E.
+  intros G f t ev d ty h T g Rg a b E. unfold expand_row. rewrite E.
   destruct (lookup f b) as [[| | | |s|]|]; try reflexivity.
   rewrite !map_map. apply map_ext. intros et. apply Rg, row_equiv_app_l, E.
 Qed.
@@ -47,9 +47,14 @@ Proof.
     destruct a; try discriminate H;
     try (apply plan_eqb_eq in H; rewrite <- H; apply bag_eqv_refl).
   - (* Expand *)
-    repeat (apply andb_true_iff in H as [H ?]).
-    apply String.eqb_eq in H. apply String.eqb_eq in H4. apply ostr_eqb_eq in H3.
-    apply dir_eqb_eq in H2. apply ostr_eqb_eq in H1. subst.
+    repeat match goal with H : _ && _ = true |- _ => apply andb_true_iff in H as [? ?] end.
+    repeat match goal with
+      | H : String.eqb _ _ = true |- _ => apply String.eqb_eq in H
+      | H : ostr_eqb _ _ = true |- _ => apply ostr_eqb_eq in H
+      | H : dir_eqb _ _ = true |- _ => apply dir_eqb_eq in H
+      | H : hops_eqb _ _ = true |- _ => apply hops_eqb_eq in H
+      end.
+    subst.
     cbn [sem]. apply bag_eqv_flat_map; [intros; apply expand_row_respects; assumption|]. apply IHb. assumption.
   - (* Filter *)
     apply andb_true_iff in H as [H1 H2]. apply expr_eqb_eq in H1. subst.
@@ -61,11 +66,21 @@ Proof.
     apply andb_true_iff in H as [H H2]. apply andb_true_iff in H as [H1 H3].
     apply (list_eqb_eq _ item_eqb_eq) in H1. subst.
     cbn [sem]. apply perm_bag_eqv, bag_eqv_map; [apply project_row_respects|]. apply IHb, H2.
+  - (* Aggregate *)
+    apply andb_true_iff in H as [H H2]. apply andb_true_iff in H as [H1 H3].
+    apply (list_eqb_eq _ expr_eqb_eq) in H1. apply (list_eqb_eq _ agg_eqb_eq) in H3. subst.
+    cbn [sem]. apply perm_bag_eqv, agg_rows_bag. apply IHb, H2.
   - (* Sort *)
     apply andb_true_iff in H as [H1 H2]. apply (list_eqb_eq _ skey_eqb_eq) in H1. subst.
     cbn [sem].
     eapply bag_eqv_trans; [apply perm_bag_eqv, sort_rows_perm|].
     eapply bag_eqv_trans; [apply IHb, H2|]. apply bag_eqv_sym, perm_bag_eqv, sort_rows_perm.
+  - (* Distinct *)
+    repeat (apply andb_true_iff in H as [H ?]).
+    cbn [sem]. apply (bag_eqv_dedup _ _ (schema b) (schema a));
+      [apply nodupb_NoDup; assumption|apply nodupb_NoDup; assumption| | |apply IHb; assumption].
+    + intros r Hr. apply (keys_sem G b); assumption.
+    + intros r Hr. apply (keys_sem G a); assumption.
 Qed.
 
 (** under a Return the bags are equal on the nose (column order no longer matters) *)
@@ -120,6 +135,7 @@ Proof.
       | H : String.eqb _ _ = true |- _ => apply String.eqb_eq in H
       | H : ostr_eqb _ _ = true |- _ => apply ostr_eqb_eq in H
       | H : dir_eqb _ _ = true |- _ => apply dir_eqb_eq in H
+      | H : hops_eqb _ _ = true |- _ => apply hops_eqb_eq in H
       | H : expr_eqb _ _ = true |- _ => apply expr_eqb_eq in H
       | H : Bool.eqb _ _ = true |- _ => apply Bool.eqb_prop in H
       | H : Nat.eqb _ _ = true |- _ => apply Nat.eqb_eq in H
@@ -275,7 +291,7 @@ Definition aW5 : plan :=
 Definition pW6 : plan :=
   PFilter (EBin OEq (EProp "a" "v") (ELit (VInt 1)))
     (PJoin JCross [] (PScan "c" (Some "C"%string))
-       (PFilter (EHasLabel "b" "B") (PExpand "a" "b" None DOut (Some "R"%string) (PScan "a" (Some "A"%string))))).
+       (PFilter (EHasLabel "b" "B") (PExpand "a" "b" None DOut (Some "R"%string) hop1 (PScan "a" (Some "A"%string))))).
 
 (** MATCH (a:A {v: 1}) WHERE a.v >= 0: a property map under a WHERE *)
 Definition pW7 : plan :=
@@ -362,6 +378,28 @@ Theorem pfd_fix_witnesses : forall p, In p [pW1; pW2; pW3] ->
 Proof.
   intros p H. cbn [In] in H. destruct H as [<-|[<-|[<-|[]]]]; repeat split; vm_compute; reflexivity.
 Qed.
+
+Theorem pfd_fix_witness_frontend : exists G p,
+  uniform p = true /\ no_conds p = true /\ k_push p = true /\ ~ Permutation (sem G (pfd p)) (sem G p) /\
+  k_push_fix p = false /\ sem G (pfd_fix p) = sem G p.
+Proof.
+  exists gW, pW1. repeat split; try (vm_compute; reflexivity).
+  apply length_neq_not_perm. vm_compute. discriminate.
+Qed.
+
+(** the proposed repair of C09-K2 (Opt.v [reorder_chk_fix]): the two answer-changing outputs are no
+    longer possible results, the filter stays above the reordered tree, and a swapped tree carries the
+    swapped condition, which the planner uses *)
+Definition aW5_fix : plan :=
+  PJoin JInner [(EVar "y", EVar "x")] (PScan "y" (Some "A"%string)) (PScan "x" (Some "A"%string)).
+
+Theorem reorder_fix_witnesses :
+  reorder_chk bW4 aW4 = true /\ reorder_chk_fix bW4 aW4 = false /\
+  reorder_chk_fix bW4 (PFilter (EBin OGt (EProp "x" "v") (ELit (VInt 0))) aW5_fix) = true /\
+  k_reorder bW4 (PFilter (EBin OGt (EProp "x" "v") (ELit (VInt 0))) aW5_fix) = false /\
+  reorder_chk bW5 aW5 = true /\ reorder_chk_fix bW5 aW5 = false /\
+  reorder_chk_fix bW5 aW5_fix = true /\ k_reorder bW5 aW5_fix = false.
+Proof. vm_compute. repeat split. Qed.
 
 (** equal normal forms as terms: equal lists of rows *)
 Theorem join_normal_form_eq : forall G p q,
